@@ -60,6 +60,9 @@ func c16Prop(nlines, nelems int) func(t *rapid.T) {
 		if nelems >= 0 {
 			rapid.SliceOfN(rapid.Uint64(), nelems, nelems).Draw(t, "w")
 		}
+		if os.Getenv("C16_TWICE") == "1" && rapid.VerifStreamOf(t).Kind == "buffer" {
+			return // a flaky property: it does not fail when a saved test case is replayed, only in the search
+		}
 		t.Fatalf("boom")
 	}
 }
@@ -96,6 +99,22 @@ func childMain(mode string) int {
 		}()
 		rapid.Check(tb, c16Prop(nlines, nelems))
 	}()
+	if os.Getenv("C16_TWICE") == "1" {
+		// the same (flaky) test fails a second time in the same process and, nearly always, in the same second: the
+		// fail file of the first failure "no longer fails", the search fails again, and the second save goes to a
+		// name that exists already
+		tb2 := &childTB{name: os.Getenv("C16_NAME")}
+		func() {
+			defer func() {
+				if p := recover(); p != nil {
+					if _, ok := p.(childSentinel); !ok {
+						panic(p)
+					}
+				}
+			}()
+			rapid.Check(tb2, c16Prop(nlines, nelems))
+		}()
+	}
 	_ = syscall.Access(c16MarkEnd, 0)
 	return 0
 }
@@ -115,6 +134,11 @@ func c16Scenarios(cfg runCfg) []Scenario {
 				sc.X = map[string]string{"tmpdir": "/dev/shm"}
 			}
 			out = append(out, sc)
+		}
+	}
+	for i := 0; i < cfg.n(8, 10); i++ {
+		if cfg.mine(i) {
+			out = append(out, Scenario{Family: "crash", Seed: mix(cfg.seed, 16, 77, uint64(i)), N: lines[i%len(lines)], K: elems[1+i%3], S: names[i%len(names)], X: map[string]string{"twice": "1"}})
 		}
 	}
 	return out
@@ -151,6 +175,9 @@ func (sc Scenario) c16Env() []string {
 		if st, err := os.Stat(td); err == nil && st.IsDir() {
 			env = append(env, "TMPDIR="+td)
 		}
+	}
+	if sc.X["twice"] == "1" {
+		env = append(env, "C16_TWICE=1")
 	}
 	return append(env, "C16_NAME="+sc.S, fmt.Sprintf("C16_LINES=%d", sc.N), fmt.Sprintf("C16_ELEMS=%d", sc.K), fmt.Sprintf("C16_SEED=%d", sc.Seed%100000+1), "GOMAXPROCS=1", "GOGC=off")
 }
@@ -244,6 +271,11 @@ func c16Run(t *testing.T, sc Scenario, res *Result) {
 	os.Chdir(refDir)
 	refFinal, refTemps, _ := listFailDir(name)
 	os.Chdir(wd)
+	twice := sc.X["twice"] == "1"
+	if twice && len(refFinal) == 2 && len(refTemps) == 0 {
+		refFinal = refFinal[1:] // the two saves fell into different seconds: two names, nothing was replaced
+		res.inc("twice_two_names")
+	}
 	if len(refFinal) != 1 || len(refTemps) != 0 {
 		res.violate(sc, "c16/ref-dir", fmt.Sprintf("uninterrupted save left %d fail files and %d temp files", len(refFinal), len(refTemps)), map[string]any{"trace": traceStr(saveTrace, 40)})
 		return
@@ -302,6 +334,13 @@ func c16Run(t *testing.T, sc Scenario, res *Result) {
 		}
 	}
 
+	if twice {
+		// two saves under one name: judged on the trace (no write access to a name that is picked up) and on the result
+		res.inc("twice_same_name_traced")
+		res.inc("crash_runs") // (one traced run)
+		res.nontrivial(fmt.Sprintf("twice/%s/%d/%d", name, sc.N, sc.K))
+		return
+	}
 	// step 2: kill the child on entry to every one of those calls
 	states := map[string]int{}
 	for pi, p := range points {
